@@ -373,6 +373,11 @@ def discharge(o, hyps, pool, budget_ms=20000):
         if r['proved']:
             return dict(status='proved', backend=r['method'], seconds=time.time() - t0,
                         witness=None, detail=f"{r['parts']} coefficient identities")
+        if r['proved'] is not True and _has_int_atoms(o):
+            # integer / rounding atoms: the equality may follow from their defining constraints (linear)
+            rr = smt.prove(core.cmp('eq', o.lhs, o.rhs), hyps, timeout_ms=budget_ms, external=False)
+            if rr['status'] == 'proved':
+                return dict(status='proved', backend=rr['backend'], seconds=time.time() - t0, witness=None, detail='')
         if r['proved'] is None:
             return dict(status='undecided', backend=r['method'], seconds=time.time() - t0, witness=None,
                         detail='; '.join(f'{k}: {res}' for k, res in r['failed'][:3]))
@@ -439,6 +444,16 @@ def discharge(o, hyps, pool, budget_ms=20000):
     DEADLINE['unknowns'] = DEADLINE.get('unknowns', 0) + 1
     return dict(status='undecided', backend=r['backend'], seconds=time.time() - t0, witness=None,
                 detail='solver returned unknown')
+
+
+def _has_int_atoms(o):
+    for side in (o.lhs, o.rhs):
+        if side is None:
+            continue
+        for nm in core.variables([side]):
+            if core.CTX.atoms[nm]['kind'] == 'int':
+                return True
+    return False
 
 
 def _order_closure(hyp_ids, goal):
@@ -568,13 +583,24 @@ def run_native(contract, cfg, point):
     """one native execution at a sample point -> list of obligation results,
     or None when the sample does not satisfy the preconditions"""
     S = Scenario('native', point)
+    import signal
+
+    def _alarm(*a):
+        raise TimeoutError('native execution exceeded 60 s (possible non-termination)')
+    old = signal.signal(signal.SIGALRM, _alarm)
+    signal.alarm(60)
     try:
         with np.errstate(all='ignore'):
             contract(S, cfg)
     except Reject:
         return None
+    except TimeoutError as e:
+        return [dict(name='(native timeout)', kind='safety', ok=False, lhs=0, rhs=0, canary=False, note=str(e))]
     except SystemExit as e:
         return [dict(name='(exit)', kind='exit', ok=True, lhs=0, rhs=0, canary=False, note=str(e))]
+    finally:
+        signal.alarm(0)
+        signal.signal(signal.SIGALRM, old)
     return S.native_results
 
 
